@@ -6,6 +6,10 @@
 (*   bind   : a second bind of an endpoint on a machine must be refused    *)
 (*   demux  : only the entitled application (exact (A,P), else (ANY,P)),   *)
 (*            payload / source endpoint / destination endpoint unchanged   *)
+(*   answer : a datagram sent through the session that delivered another   *)
+(*            one travels from the endpoint that one was addressed to, to  *)
+(*            the endpoint it came from, and is demultiplexed there like   *)
+(*            any other datagram                                           *)
 (*   end    : on the loss-free link every entitled listener on every       *)
 (*            machine the frame reaches got the datagram exactly once      *)
 (***************************************************************************)
@@ -15,7 +19,7 @@ VARIABLES l, s
 ANY == <<0, 0, 0, 0>>
 T(x) == <<x[1], x[2], x[3], x[4]>>
 Init0 == [run |-> -1, arp |-> FALSE, mtu |-> 0, nm |-> 0, bound |-> {}, sent |-> {}, dem |-> {},
-          bad |-> {}, nbad |-> 0, runs |-> 0, events |-> 0]
+          bad |-> {}, nbad |-> 0, runs |-> 0, events |-> 0, nreply |-> 0, ndem |-> 0, nrdem |-> 0]
 Viol(t, e, clause) ==
   IF Cardinality({x \in t.bad : x.clause = clause}) >= 3 THEN [t EXCEPT !.nbad = @ + 1]
   ELSE [t EXCEPT !.bad = @ \cup {[run |-> t.run, i |-> e.i, clause |-> clause]}, !.nbad = @ + 1]
@@ -38,7 +42,8 @@ Step(t, e) ==
     [] e.ev = "dsend" ->
          LET t1 == IF e.res = "sent" /\ e.len + 28 > t.mtu THEN Viol(t0, e, "a datagram larger than the MTU allows was sent") ELSE t0
          IN IF e.res = "sent"
-            THEN [t1 EXCEPT !.sent = @ \cup {[id |-> e.id, m |-> e.m, src |-> T(e.src), sport |-> e.sport, dst |-> T(e.dst), dport |-> e.dport, len |-> e.len]}]
+            THEN [t1 EXCEPT !.sent = @ \cup {[id |-> e.id, m |-> e.m, src |-> T(e.src), sport |-> e.sport, dst |-> T(e.dst), dport |-> e.dport, len |-> e.len, reply |-> e.reply]},
+                          !.nreply = @ + (IF e.reply THEN 1 ELSE 0)]
             ELSE t1
     [] e.ev = "demux" ->
          LET ds == {d \in t.sent : d.id = e.id \/ (e.len = 0 /\ d.len = 0)}
@@ -52,10 +57,11 @@ Step(t, e) ==
                         ELSE IF \E x \in t.dem : x.m = e.m /\ x.id = d.id THEN Viol(t0, e, "datagram delivered twice on one machine")
                         ELSE t0
              did == IF ds = {} THEN -1 ELSE (CHOOSE x \in ds : TRUE).id
-         IN [t1 EXCEPT !.dem = @ \cup {[m |-> e.m, app |-> e.app, id |-> did]}]
+         IN [t1 EXCEPT !.dem = @ \cup {[m |-> e.m, app |-> e.app, id |-> did]}, !.ndem = @ + 1, !.nrdem = @ + (IF did > 100 /\ did < 200 THEN 1 ELSE 0)]
     [] e.ev = "end" ->
          \* on a loss-free link the entitled listener of every machine the frame reaches got it
-         LET Reach(d) == IF t.arp THEN {Owner(d.dst)} \cap (0..(t.nm - 1)) ELSE 0..(t.nm - 1)
+         \* (an answer sent through the session that delivered a datagram is addressed to the hardware address it came from)
+         LET Reach(d) == IF t.arp \/ d.reply THEN {Owner(d.dst)} \cap (0..(t.nm - 1)) ELSE 0..(t.nm - 1)
              missing == {d \in t.sent : \E m \in Reach(d) :
                            Entitled(t, m, d.dst, d.dport) >= 0 /\ ~\E x \in t.dem : x.m = m /\ x.id = d.id}
          IN IF missing = {} THEN t0 ELSE Viol(t0, e, "a datagram did not reach the application bound to its address and port")
@@ -65,7 +71,7 @@ Step(t, e) ==
 Init == l = 1 /\ s = Init0
 Next == l <= Len(Rec) /\ s' = Step(s, Rec[l]) /\ l' = l + 1
 Spec == Init /\ [][Next]_<<l, s>>
-Report == TLCSet(1, [bad |-> s.bad, nbad |-> s.nbad, runs |-> s.runs, events |-> s.events])
+Report == TLCSet(1, [bad |-> s.bad, nbad |-> s.nbad, runs |-> s.runs, events |-> s.events, deliveries |-> s.ndem, answers_sent |-> s.nreply, answers_delivered |-> s.nrdem])
 Final == /\ PrintT(<<"TRACE-RESULT", ToJson(TLCGet(1))>>)
          /\ PrintT(<<"TRACE-SUMMARY", ToJson([events |-> Len(Rec), consumed |-> TLCGet("stats").diameter - 1])>>)
 =============================================================================
